@@ -184,3 +184,34 @@ func runeSubstitutions(s string) []string {
 	}
 	return out
 }
+
+// checksumPatterns returns 4-byte XOR masks: every pattern of one or two flipped bits, every
+// non-zero value on a single byte, and the same non-zero value on every pair (and on all four) of
+// the bytes (patterns that cancel under a comparison that XOR-accumulates differences).
+func checksumPatterns() [][4]byte {
+	var out [][4]byte
+	for a := 0; a < 32; a++ {
+		var m [4]byte
+		m[a/8] ^= 1 << uint(a%8)
+		out = append(out, m)
+		for b := a + 1; b < 32; b++ {
+			m2 := m
+			m2[b/8] ^= 1 << uint(b%8)
+			out = append(out, m2)
+		}
+	}
+	for v := 1; v < 256; v++ {
+		for i := 0; i < 4; i++ {
+			var m [4]byte
+			m[i] = byte(v)
+			out = append(out, m)
+			for j := i + 1; j < 4; j++ {
+				m2 := m
+				m2[j] = byte(v)
+				out = append(out, m2)
+			}
+		}
+		out = append(out, [4]byte{byte(v), byte(v), byte(v), byte(v)})
+	}
+	return out
+}
